@@ -21,6 +21,30 @@ CLAIMED = {
              "random.choice is a scripted stream; BeaconConfig.from_bytes is stubbed in the gate stream.",
         design="§4 C20",
     ),
+    "C05": dict(
+        text="Lean 4 proof over an executable model of pad, encrypt_data, decrypt_data, encrypt_packet, decrypt_packet, raise_for_signature, "
+             "dumps and the client/server iter_encrypted_packets: the round trip returns plaintext plus 1-16 bytes of 'A'; the signature is "
+             "HMAC[:16] over the ciphertext; with verification, acceptance is exactly 'key present, non-empty and MAC equal'; rejection is "
+             "ValueError with AES never invoked (call-log theorem); client and server framings invert concatenation for all packet lists "
+             "(client_frames_roundtrip by induction). AES-CBC and HMAC-SHA256 are parameters constrained only by CryptoLaws (satisfiable toy "
+             "instance given); rejection of a modified ciphertext / different key is proved under the explicit hypothesis that the truncated MACs differ.",
+        note="Model tied to the code by running the real library against the compiled model with primitive results supplied from pycryptodome/hmac "
+             "called directly and the ordered primitive-call log compared: every plaintext length 0-48, every single-bit flip and truncation of "
+             "ciphertext and signature of 20 (quick) / 300 (thorough) packets, HMAC-key faults, verify=False, streams of 1-6 packets, malformed "
+             "frames. BytesIO, cstruct uint32 and int.to_bytes semantics are modelled; crypto hardness is not assumed silently.",
+        design="§4 C05, §1.2",
+    ),
+    "C06": dict(
+        text="Lean 4 proof: for every metadata whose integer fields fit their declared widths, every 16-byte aes_rand and every info with "
+             "59+|info| <= k-11 (RSA-1024/2048 as corollaries), decrypt_metadata(encrypt_metadata(m)) returns m field for field with "
+             "size = |dumps|-8, under explicit assumptions on RSA/PKCS#1 v1.5 (CryptoLaws, satisfiable). Every blob that fails to decrypt, has "
+             "the wrong length, is short, truncated or lacks the 0xBEEF magic yields ValueError and nothing else (decrypt_only_valueError). "
+             "AES and HMAC keys are the two 16-byte halves of SHA-256(aes_rand). The struct layout is a generated table re-proved by decide.",
+        note="RSA and SHA-256 are model parameters, not verified; dissect.cstruct read/write semantics are modelled from measurements and "
+             "exercised by dedicated dumps/parse streams against the real package. Layout from tools/gen/c2struct.py. Correspondence uses "
+             "pycryptodome keys from corpus/C06/*.pem plus one seed-derived key, against the compiled model and an independent struct.pack oracle.",
+        design="§4 C06, §1.2",
+    ),
 }
 
 REASON_PENDING = "not claimed yet: model/theorems/correspondence for this property are not built in this revision (see DESIGN.md §7 build order)"
